@@ -2,6 +2,7 @@ package c10
 
 import (
 	"math"
+	"math/big"
 	"time"
 
 	"pgregory.net/rapid"
@@ -123,16 +124,69 @@ func genTD(t *rapid.T, depthLeft int, role int, laxProp bool, forceStruct bool) 
 var intAnchors = []int64{0, 1, -1, 127, 128, -128, -129, 255, 256, 32767, 32768, -32768, -32769, 1 << 23, -(1 << 23), math.MaxInt32, math.MinInt32,
 	math.MaxInt32 + 1, math.MinInt32 - 1, 1 << 39, 1 << 47, -(1 << 47), 1 << 55, -(1 << 55) - 1, math.MaxInt64, math.MinInt64}
 
+// genBoundary draws an integer from the encoding-length boundary classes 0, +-1, +-2^(8k-1), +-2^(8k-1) +- 1,
+// +-2^(8k), +-(2^(8k) - 1) for k = 1..maxK (the places where the minimal two's-complement length changes and where
+// sign octets appear or vanish, e.g. -2^(8k-1) = 80 00..00).
+func genBoundary(t *rapid.T, maxK int) *big.Int {
+	form := rapid.IntRange(0, 7).Draw(t, "bform")
+	k := rapid.IntRange(1, maxK).Draw(t, "bk")
+	neg := rapid.Bool().Draw(t, "bneg")
+	v := new(big.Int)
+	one := big.NewInt(1)
+	switch form {
+	case 0:
+		// zero
+	case 1:
+		v.SetInt64(1)
+	case 2:
+		v.Lsh(one, uint(8*k-1))
+	case 3:
+		v.Lsh(one, uint(8*k-1)).Add(v, one)
+	case 4:
+		v.Lsh(one, uint(8*k-1)).Sub(v, one)
+	case 5:
+		v.Lsh(one, uint(8*k))
+	case 6:
+		v.Lsh(one, uint(8*k)).Sub(v, one)
+	default:
+		v.Lsh(one, uint(8*k-1)) // the 80 00..00 boundary gets double weight
+		neg = true
+	}
+	if neg {
+		v.Neg(v)
+	}
+	return v
+}
+
+func fitsBits(v *big.Int, bits int) bool {
+	if bits == 32 {
+		return v.IsInt64() && v.Int64() == int64(int32(v.Int64()))
+	}
+	return v.IsInt64()
+}
+
 func genInt(t *rapid.T, bits int) int64 {
 	var v int64
-	switch rapid.IntRange(0, 3).Draw(t, "intmode") {
+	switch rapid.IntRange(0, 5).Draw(t, "intmode") {
 	case 0:
 		v = int64(rapid.IntRange(-3, 300).Draw(t, "small"))
 	case 1:
 		v = intAnchors[rapid.IntRange(0, len(intAnchors)-1).Draw(t, "anchor")] + int64(rapid.IntRange(-1, 1).Draw(t, "delta"))
-		if v == math.MinInt64+0 && false {
-			v = 0
+	case 2, 3:
+		maxK := 9
+		if bits == 32 {
+			maxK = 5
 		}
+		b := genBoundary(t, maxK)
+		for !fitsBits(b, bits) {
+			// step down one octet at a time until the value fits the target (k = 9 / 5 exist to reach the edge itself)
+			if b.Sign() < 0 {
+				b.Neg(new(big.Int).Rsh(new(big.Int).Neg(b), 8))
+			} else {
+				b.Rsh(b, 8)
+			}
+		}
+		v = b.Int64()
 	default:
 		v = rapid.Int64().Draw(t, "i64")
 		v >>= uint(rapid.IntRange(0, 56).Draw(t, "shift"))
@@ -205,14 +259,16 @@ func genVal(t *rapid.T, td *TD, malP int, quirk string) Val {
 	case KInt32, KEnum:
 		v.I = genInt(t, 32)
 	case KBig:
+		if pct(t, 45, "bigboundary") {
+			b := genBoundary(t, 20)
+			v.Neg = b.Sign() < 0
+			v.Big = new(big.Int).Abs(b).Bytes()
+			break
+		}
 		n := rapid.IntRange(0, 20).Draw(t, "biglen")
-		if n <= 2 {
-			v.Big = rapid.SliceOfN(rapid.Byte(), n, n).Draw(t, "big")
-		} else {
-			v.Big = rapid.SliceOfN(rapid.Byte(), n, n).Draw(t, "big")
-			if rapid.Bool().Draw(t, "bighi") {
-				v.Big[0] |= 0x80
-			}
+		v.Big = rapid.SliceOfN(rapid.Byte(), n, n).Draw(t, "big")
+		if n > 2 && rapid.Bool().Draw(t, "bighi") {
+			v.Big[0] |= 0x80
 		}
 		v.Neg = rapid.Bool().Draw(t, "neg")
 	case KBits:
